@@ -240,11 +240,12 @@ async fn run_case(w: &World, c: &HttpCase) -> Result<Outcome, String> {
         1 => {
             // head split at a few places, the early bytes ride with the last piece of the head
             let cut1 = c.head.len() / 3;
-            let cut2 = c.head.len().saturating_sub(2).max(cut1);
+            // the second cut lands inside the header terminator: after "\r", "\r\n" or "\r\n\r" (varies per case)
+            let cut2 = c.head.len().saturating_sub(1 + (c.head.len() + c.early.len()) % 3).max(cut1);
             for part in [&first[..cut1], &first[cut1..cut2], &first[cut2..]] {
                 s.write_all(part).await.map_err(|e| e.to_string())?;
                 s.flush().await.ok();
-                tokio::time::sleep(Duration::from_millis(2)).await;
+                tokio::time::sleep(Duration::from_millis(8)).await;
             }
         }
         _ => {
